@@ -96,6 +96,14 @@ func drain(ch chan storage.Stream[storage.ListResult], d time.Duration) (out []r
 				st = s.Result.State.Status
 			}
 			out = append(out, rec15{ID: s.Result.ID, Group: s.Result.GroupID, Name: s.Result.Name, Descr: s.Result.Descr, Submit: s.Result.SubmitTime, Status: st})
+			// the watchdog is on the stream standing still, not on its total duration
+			if !timer.Stop() {
+				select {
+				case <-timer.C:
+				default:
+				}
+			}
+			timer.Reset(d)
 		case <-timer.C:
 			return out, errs, false
 		}
